@@ -108,4 +108,226 @@ theorem resampler_iir (S : RS) (xs : List Int) (hI : Inv S) (hfn : S.cfg.fn = us
     rw [hk1]
     simp only [Res.bind, hb2e]
 
+theorem down_cfg_of_facts (c : Cfg) (hc : cfgFacts c = true) (hfn : c.fn = useDownFIR) :
+    DownCfg c (coefsOf c.coefId) ∧ c.firOrder ≤ 36 ∧ ∃ a0 a1 rest, coefsOf c.coefId = a0 :: a1 :: rest := by
+  simp only [cfgFacts, Bool.and_eq_true, Bool.or_eq_true, decide_eq_true_eq, beq_iff_eq] at hc
+  obtain ⟨_, hfn'⟩ := hc
+  have hdown : (c.firOrder = 18 ∧ (coefsOf c.coefId).length = 2 + 9 * c.firFracs.toNat ∧ 0 < c.firFracs ∧ c.firFracs ≤ 3) ∨
+      (c.firOrder = 24 ∧ (coefsOf c.coefId).length = 14) ∨ (c.firOrder = 36 ∧ (coefsOf c.coefId).length = 20) := by
+    rcases hfn' with ((⟨h, _⟩ | ⟨h, _⟩) | h) | ⟨_, hd⟩
+    · rw [hfn] at h; exact absurd h (by decide)
+    · rw [hfn] at h; exact absurd h (by decide)
+    · rw [hfn] at h; exact absurd h (by decide)
+    · rcases hd with (⟨⟨⟨ho, hl⟩, hf0⟩, hf1⟩ | ⟨ho, hl⟩) | ⟨ho, hl⟩
+      · exact Or.inl ⟨ho, hl, hf0, hf1⟩
+      · exact Or.inr (Or.inl ⟨ho, hl⟩)
+      · exact Or.inr (Or.inr ⟨ho, hl⟩)
+  refine ⟨hdown, ?_, ?_⟩
+  · rcases hdown with ⟨ho, _⟩ | ⟨ho, _⟩ | ⟨ho, _⟩ <;> omega
+  · exact two_le_length (by rcases hdown with ⟨_, hl, _⟩ | ⟨_, hl⟩ | ⟨_, hl⟩ <;> omega)
+
+/-- down_FIR: a call on a whole number of milliseconds = the batch loop run once over the delayed stream. -/
+theorem resampler_dn (S : RS) (xs : List Int) (a0 a1 : Int) (rest : List Int) (hI : Inv S)
+    (hfn : S.cfg.fn = useDownFIR) (hco : coefsOf S.cfg.coefId = a0 :: a1 :: rest) (k : Nat) (hk : 1 ≤ k)
+    (hx : xs.length = k * S.cfg.fsIn) :
+    ∃ q db', dnLp S.cfg a0 a1 rest (S.sIIR.s0, S.sIIR.s1, S.sFIR.take S.cfg.firOrder) (stream S xs) = .ok q ∧
+      q.1.2.2.length = S.cfg.firOrder ∧
+      resampler S xs = .ok ({ S with sIIR := { S.sIIR with s0 := q.1.1, s1 := q.1.2.1 },
+                                     sFIR := q.1.2.2 ++ S.sFIR.drop S.cfg.firOrder, delayBuf := db' }, q.2) := by
+  have hcf := cfgTable_facts _ hI.cfg
+  obtain ⟨hdc, hord, _⟩ := down_cfg_of_facts _ hcf hfn
+  rw [hco] at hdc
+  have hc := hcf
+  simp only [cfgFacts, Bool.and_eq_true, decide_eq_true_eq] at hc
+  obtain ⟨⟨⟨⟨⟨⟨⟨h1, h2⟩, h3⟩, h4⟩, h5⟩, _⟩, _⟩, _⟩ := hc
+  have hpf := cfgTable_dnPartFacts _ hI.cfg
+  have hms := cfgTable_msFacts _ hI.cfg
+  simp only [msFacts, Bool.and_eq_true, decide_eq_true_eq] at hms
+  have h1' : 1 < S.cfg.fsIn := hms.1.1.2
+  have hfl : S.sFIR.length = 36 := hI.fir
+  have hdl : S.delayBuf.length = 48 := hI.dbuf
+  have hb2 : S.cfg.batchSize ≤ 480 := by omega
+  have hlen : S.cfg.fsIn ≤ xs.length := by
+    have := Nat.mul_le_mul_right S.cfg.fsIn hk; rw [Nat.one_mul] at this; omega
+  have hsl := stream_length S xs (by omega) hdl (by omega)
+  rw [resampler_via_stream S xs h3 h2 hdl hlen]
+  have hD : (dbufAfterCopy S xs).length = 48 := by
+    simp only [dbufAfterCopy, List.length_append, List.length_take, List.length_drop]; omega
+  obtain ⟨q0, hq0, hq08, hk0⟩ := kernel_dn_explicit { S with delayBuf := dbufAfterCopy S xs }
+    ((stream S xs).take S.cfg.fsIn) a0 a1 rest hfn hfl h5 hb2 hco hdc hord
+  have hT1f : (q0.1.2.2 ++ S.sFIR.drop S.cfg.firOrder).length = 36 := by
+    rw [List.length_append, List.length_drop]; dsimp only at hq08; omega
+  obtain ⟨q1, hq1, hq18, hk1⟩ := kernel_dn_explicit
+    { S with sIIR := { S.sIIR with s0 := q0.1.1, s1 := q0.1.2.1 }, sFIR := q0.1.2.2 ++ S.sFIR.drop S.cfg.firOrder,
+             delayBuf := dbufAfterCopy S xs }
+    ((stream S xs).drop S.cfg.fsIn) a0 a1 rest hfn hT1f h5 hb2 hco hdc hord
+  dsimp only at hq0 hq08 hk0 hq1 hq18 hk1
+  have htk : (q0.1.2.2 ++ S.sFIR.drop S.cfg.firOrder).take S.cfg.firOrder = q0.1.2.2 := by
+    rw [List.take_append_of_le_length (by omega), List.take_of_length_le (by omega)]
+  have hdk : (q0.1.2.2 ++ S.sFIR.drop S.cfg.firOrder).drop S.cfg.firOrder = S.sFIR.drop S.cfg.firOrder := by
+    rw [List.drop_append_of_le_length (by omega), List.drop_of_length_le (by omega), List.nil_append]
+  rw [htk] at hq1
+  rw [hdk] at hk1
+  obtain ⟨db2, hb2e, _, _⟩ := blit_ok (l := dbufAfterCopy S xs) (src := xs.drop (xs.length - S.cfg.inputDelay)) (off := 0)
+    (by rw [List.length_drop]; omega)
+  refine ⟨(q1.1, q0.2 ++ q1.2), db2, ?_, hq18, ?_⟩
+  · have hs0 : ((stream S xs).take S.cfg.fsIn).length = 1 * S.cfg.fsIn := by rw [List.length_take]; omega
+    have hs1 : ((stream S xs).drop S.cfg.fsIn).length = (k - 1) * S.cfg.fsIn := by
+      rw [List.length_drop, hsl, hx, Nat.sub_mul, Nat.one_mul]
+    have := dnLp_append S.cfg a0 a1 rest hfn hpf h5 h4 h1' h2 1 (k - 1)
+      (S.sIIR.s0, S.sIIR.s1, S.sFIR.take S.cfg.firOrder) _ _ hs0 hs1
+    rw [List.take_append_drop] at this
+    rw [this]
+    simp only [seq2, hq0, Res.bind]
+    have e : q0.1 = (q0.1.1, q0.1.2.1, q0.1.2.2) := rfl
+    rw [e, hq1]
+  · rw [hk0]
+    simp only [Res.bind]
+    rw [hk1]
+    simp only [Res.bind, hb2e]
+
+/-- What chunk invariance says. -/
+def ChunkInv (S : RS) (a b : List Int) : Prop :=
+  ∃ S1 o1 S2 o2 S12 o12, resampler S a = .ok (S1, o1) ∧ resampler S1 b = .ok (S2, o2) ∧
+    resampler S (a ++ b) = .ok (S12, o12) ∧ o12 = o1 ++ o2 ∧ S12.cfg = S2.cfg ∧ S12.sIIR = S2.sIIR ∧
+    S12.sFIR = S2.sFIR ∧ S12.delayBuf.take S.cfg.inputDelay = S2.delayBuf.take S.cfg.inputDelay
+
+theorem drop_tail_append (a b : List Int) (d : Nat) (hb : d ≤ b.length) :
+    (a ++ b).drop ((a ++ b).length - d) = b.drop (b.length - d) := by
+  rw [List.length_append]
+  have e : a.length + b.length - d = a.length + (b.length - d) := by omega
+  rw [e, List.drop_append, List.drop_of_length_le (l := a) (by omega), List.nil_append]
+  congr 1; omega
+
+theorem chunk_iir (S : RS) (a b : List Int) (hI : Inv S) (hfn : S.cfg.fn = useIIRFIR) (ka kb : Nat)
+    (hka : 1 ≤ ka) (hkb : 1 ≤ kb) (ha : a.length = ka * S.cfg.fsIn) (hb : b.length = kb * S.cfg.fsIn)
+    (hxa : ∀ v ∈ a, I16 v) (hxb : ∀ v ∈ b, I16 v) : ChunkInv S a b := by
+  have hc := cfgTable_facts _ hI.cfg
+  simp only [cfgFacts, Bool.and_eq_true, decide_eq_true_eq] at hc
+  obtain ⟨⟨⟨⟨⟨⟨⟨h1, h2⟩, h3⟩, h4⟩, h5⟩, _⟩, _⟩, _⟩ := hc
+  have hpf := cfgTable_iirPartFacts _ hI.cfg
+  have hla : S.cfg.fsIn ≤ a.length := by
+    have := Nat.mul_le_mul_right S.cfg.fsIn hka; rw [Nat.one_mul] at this; omega
+  have hlb : S.cfg.fsIn ≤ b.length := by
+    have := Nat.mul_le_mul_right S.cfg.fsIn hkb; rw [Nat.one_mul] at this; omega
+  obtain ⟨qa, dba, hqa, hqa8, hra⟩ := resampler_iir S a hI hfn ka hka ha
+  obtain ⟨S1', o1', hr1, hI1, _, _, _⟩ := resampler_ok S a hI hla hxa
+  rw [hra] at hr1
+  injection hr1 with hr1
+  injection hr1 with hS1 ho1
+  rw [← hS1] at hI1
+  have hd1 := resampler_dbuf S a hI hla hxa _ hra
+  obtain ⟨qb, dbb, hqb, hqb8, hrb⟩ := resampler_iir _ b hI1 hfn kb hkb hb
+  have hd2 := resampler_dbuf _ b hI1 hlb hxb _ hrb
+  obtain ⟨qab, dbab, hqab, _, hrab⟩ := resampler_iir S (a ++ b) hI hfn (ka + kb) (by omega)
+    (by rw [List.length_append, ha, hb, Nat.add_mul])
+  have hd12 := resampler_dbuf S (a ++ b) hI (by rw [List.length_append]; omega)
+    (by intro v hv; rcases List.mem_append.1 hv with h | h; exact hxa v h; exact hxb v h) _ hrab
+  dsimp only at hqb hqb8 hrb hd1 hd2 hd12
+  have hsc := stream_concat S { S with sIIR := qa.1.1, sFIR := qa.1.2 ++ S.sFIR.drop 8, delayBuf := dba } a b rfl hd1
+    (by omega) (by omega)
+  have htk : (qa.1.2 ++ S.sFIR.drop 8).take 8 = qa.1.2 := by
+    rw [List.take_append_of_le_length (by omega), List.take_of_length_le (by omega)]
+  have hdk : (qa.1.2 ++ S.sFIR.drop 8).drop 8 = S.sFIR.drop 8 := by
+    rw [List.drop_append_of_le_length (by omega), List.drop_of_length_le (by omega), List.nil_append]
+  rw [htk] at hqb
+  rw [hdk] at hrb
+  have hsa := stream_length S a (by omega) hI.dbuf (by omega)
+  have hsb := stream_length { S with sIIR := qa.1.1, sFIR := qa.1.2 ++ S.sFIR.drop 8, delayBuf := dba } b
+    (by show S.cfg.inputDelay ≤ 48; omega) hI1.dbuf (by show S.cfg.inputDelay ≤ b.length; omega)
+  have happ := iirLp_append S.cfg hfn hpf h5 h4 h1 h2 ka kb (S.sIIR, S.sFIR.take 8) _ _ (hsa.trans ha) (hsb.trans hb)
+  rw [← hsc, hqab] at happ
+  simp only [seq2, hqa, Res.bind] at happ
+  have e : qa.1 = (qa.1.1, qa.1.2) := rfl
+  rw [e, hqb] at happ
+  simp only [Res.bind] at happ
+  injection happ with happ
+  refine ⟨_, _, _, _, _, _, hra, hrb, hrab, ?_, rfl, ?_, ?_, ?_⟩
+  · rw [happ]
+  · show qab.1.1 = qb.1.1
+    rw [happ]
+  · show qab.1.2 ++ S.sFIR.drop 8 = qb.1.2 ++ S.sFIR.drop 8
+    rw [happ]
+  · show dbab.take S.cfg.inputDelay = dbb.take S.cfg.inputDelay
+    rw [hd12, hd2, drop_tail_append a b _ (by omega)]
+
+theorem chunk_dn (S : RS) (a b : List Int) (hI : Inv S) (hfn : S.cfg.fn = useDownFIR) (ka kb : Nat)
+    (hka : 1 ≤ ka) (hkb : 1 ≤ kb) (ha : a.length = ka * S.cfg.fsIn) (hb : b.length = kb * S.cfg.fsIn)
+    (hxa : ∀ v ∈ a, I16 v) (hxb : ∀ v ∈ b, I16 v) : ChunkInv S a b := by
+  have hcf := cfgTable_facts _ hI.cfg
+  obtain ⟨hdc, hord, a0, a1, rest, hco⟩ := down_cfg_of_facts _ hcf hfn
+  have hc := hcf
+  simp only [cfgFacts, Bool.and_eq_true, decide_eq_true_eq] at hc
+  obtain ⟨⟨⟨⟨⟨⟨⟨h1, h2⟩, h3⟩, h4⟩, h5⟩, _⟩, _⟩, _⟩ := hc
+  have hpf := cfgTable_dnPartFacts _ hI.cfg
+  have hms := cfgTable_msFacts _ hI.cfg
+  simp only [msFacts, Bool.and_eq_true, decide_eq_true_eq] at hms
+  have h1' : 1 < S.cfg.fsIn := hms.1.1.2
+  have hfl : S.sFIR.length = 36 := hI.fir
+  have hla : S.cfg.fsIn ≤ a.length := by
+    have := Nat.mul_le_mul_right S.cfg.fsIn hka; rw [Nat.one_mul] at this; omega
+  have hlb : S.cfg.fsIn ≤ b.length := by
+    have := Nat.mul_le_mul_right S.cfg.fsIn hkb; rw [Nat.one_mul] at this; omega
+  obtain ⟨qa, dba, hqa, hqa8, hra⟩ := resampler_dn S a a0 a1 rest hI hfn hco ka hka ha
+  obtain ⟨S1', o1', hr1, hI1, _, _, _⟩ := resampler_ok S a hI hla hxa
+  rw [hra] at hr1
+  injection hr1 with hr1
+  injection hr1 with hS1 ho1
+  rw [← hS1] at hI1
+  have hd1 := resampler_dbuf S a hI hla hxa _ hra
+  obtain ⟨qb, dbb, hqb, hqb8, hrb⟩ := resampler_dn _ b a0 a1 rest hI1 hfn hco kb hkb hb
+  have hd2 := resampler_dbuf _ b hI1 hlb hxb _ hrb
+  obtain ⟨qab, dbab, hqab, _, hrab⟩ := resampler_dn S (a ++ b) a0 a1 rest hI hfn hco (ka + kb) (by omega)
+    (by rw [List.length_append, ha, hb, Nat.add_mul])
+  have hd12 := resampler_dbuf S (a ++ b) hI (by rw [List.length_append]; omega)
+    (by intro v hv; rcases List.mem_append.1 hv with h | h; exact hxa v h; exact hxb v h) _ hrab
+  dsimp only at hqb hqb8 hrb hd1 hd2 hd12
+  have hsc := stream_concat S
+    { S with sIIR := { S.sIIR with s0 := qa.1.1, s1 := qa.1.2.1 }, sFIR := qa.1.2.2 ++ S.sFIR.drop S.cfg.firOrder,
+             delayBuf := dba } a b rfl hd1 (by omega) (by omega)
+  have htk : (qa.1.2.2 ++ S.sFIR.drop S.cfg.firOrder).take S.cfg.firOrder = qa.1.2.2 := by
+    rw [List.take_append_of_le_length (by omega), List.take_of_length_le (by omega)]
+  have hdk : (qa.1.2.2 ++ S.sFIR.drop S.cfg.firOrder).drop S.cfg.firOrder = S.sFIR.drop S.cfg.firOrder := by
+    rw [List.drop_append_of_le_length (by omega), List.drop_of_length_le (by omega), List.nil_append]
+  rw [htk] at hqb
+  rw [hdk] at hrb
+  have hsa := stream_length S a (by omega) hI.dbuf (by omega)
+  have hsb := stream_length
+    { S with sIIR := { S.sIIR with s0 := qa.1.1, s1 := qa.1.2.1 }, sFIR := qa.1.2.2 ++ S.sFIR.drop S.cfg.firOrder,
+             delayBuf := dba } b
+    (by show S.cfg.inputDelay ≤ 48; omega) hI1.dbuf (by show S.cfg.inputDelay ≤ b.length; omega)
+  have happ := dnLp_append S.cfg a0 a1 rest hfn hpf h5 h4 h1' h2 ka kb
+    (S.sIIR.s0, S.sIIR.s1, S.sFIR.take S.cfg.firOrder) _ _ (hsa.trans ha) (hsb.trans hb)
+  rw [← hsc, hqab] at happ
+  simp only [seq2, hqa, Res.bind] at happ
+  have e : qa.1 = (qa.1.1, qa.1.2.1, qa.1.2.2) := rfl
+  rw [e, hqb] at happ
+  simp only [Res.bind] at happ
+  injection happ with happ
+  refine ⟨_, _, _, _, _, _, hra, hrb, hrab, ?_, rfl, ?_, ?_, ?_⟩
+  · rw [happ]
+  · show ({ S.sIIR with s0 := qab.1.1, s1 := qab.1.2.1 } : IIR) = { S.sIIR with s0 := qb.1.1, s1 := qb.1.2.1 }
+    rw [happ]
+  · show qab.1.2.2 ++ S.sFIR.drop S.cfg.firOrder = qb.1.2.2 ++ S.sFIR.drop S.cfg.firOrder
+    rw [happ]
+  · show dbab.take S.cfg.inputDelay = dbb.take S.cfg.inputDelay
+    rw [hd12, hd2, drop_tail_append a b _ (by omega)]
+
+/-- Chunk invariance of silk_resampler at whole-millisecond cuts, every configuration. -/
+theorem chunk_all (S : RS) (a b : List Int) (hI : Inv S) (ka kb : Nat)
+    (hka : 1 ≤ ka) (hkb : 1 ≤ kb) (ha : a.length = ka * S.cfg.fsIn) (hb : b.length = kb * S.cfg.fsIn)
+    (hxa : ∀ v ∈ a, I16 v) (hxb : ∀ v ∈ b, I16 v) : ChunkInv S a b := by
+  have hc := cfgTable_facts _ hI.cfg
+  simp only [cfgFacts, Bool.and_eq_true, Bool.or_eq_true, decide_eq_true_eq, beq_iff_eq] at hc
+  obtain ⟨⟨⟨⟨⟨⟨⟨h1, h2⟩, h3⟩, h4⟩, h5⟩, _⟩, _⟩, hfn⟩ := hc
+  have hla : S.cfg.fsIn ≤ a.length := by
+    have := Nat.mul_le_mul_right S.cfg.fsIn hka; rw [Nat.one_mul] at this; omega
+  have hlb : S.cfg.fsIn ≤ b.length := by
+    have := Nat.mul_le_mul_right S.cfg.fsIn hkb; rw [Nat.one_mul] at this; omega
+  rcases hfn with ((⟨hfn, _⟩ | ⟨hfn, _⟩) | hfn) | ⟨hfn, _⟩
+  · exact chunk_fold S a b (Or.inl hfn) h3 h2 hI.dbuf hla hlb
+  · exact chunk_fold S a b (Or.inr hfn) h3 h2 hI.dbuf hla hlb
+  · exact chunk_iir S a b hI hfn ka kb hka hkb ha hb hxa hxb
+  · exact chunk_dn S a b hI hfn ka kb hka hkb ha hb hxa hxb
+
 end OpusProofs.SilkResamp
